@@ -64,6 +64,11 @@ func SpecHasPrefix(s, prefix string) bool {
 //@   results r
 //@   ensures r == SpecHasPrefix(s, prefix)
 
+//@ extern bytes.HasPrefix
+//@   params s prefix
+//@   results r
+//@   ensures r == SpecHasPrefix(s, prefix)
+
 // OpaqueScanLines: the lines a bufio.Scanner with ScanLines and an unlimited buffer
 // yields for s (split at "\n", one trailing "\r" removed per line, no final empty line).
 // Uninterpreted for the prover; the scanner ghost model links its line list to it.
